@@ -1293,7 +1293,8 @@ class AffineGen:
 
 class SymrefGen:
     """func whose body uses symref.declare/update/fetch (always written before read), i32 arithmetic,
-    external calls; optionally symbol uses nested in scf.if / scf.for regions."""
+    external calls; optionally symbol uses nested in scf.if / scf.for regions (then also symbols without a
+    declaration in the program)."""
 
     def __init__(self, rng: Any, nested: bool):
         self.rng = rng
@@ -1364,9 +1365,13 @@ class SymrefGen:
         lines.append(f"  {c} = arith.constant {r.choice([0, 1, 7, -5])} : i32")
         pool.append(c)
         syms: list[str] = []
+        # nested variant: sometimes the symbols are declared by an enclosing scope that is not part of the
+        # program (as in tests/filecheck/transforms/desymref.mlir): the pass then only forwards within blocks
+        undeclared = self.nested and r.random() < 0.4
         for _ in range(r.randint(1, 2)):
             s = f"s{len(syms)}"
-            lines.append(f'  symref.declare "{s}"')
+            if not undeclared:
+                lines.append(f'  symref.declare "{s}"')
             lines.append(f"  symref.update @{s} = {r.choice(pool)} : i32")
             syms.append(s)
         for _ in range(r.randint(2, 10)):
